@@ -321,31 +321,18 @@ func (e *kvElection) verifyLeadershipAfterReconnect() {
 }
 
 func (e *kvElection) handleReconnectVerificationFailed(err error) {
-	e.mu.Lock()
-	defer e.mu.Unlock()
-
-	if e.isLeader.Load() {
-		log := e.getLogger()
-		log.Error("demoting_due_to_reconnect_verification_failure",
-			append(e.logWithContext(e.ctx),
-				zap.Error(err),
-				zap.String("error_type", classifyErrorType(err)),
-			)...,
-		)
-
-		e.becomeFollower()
-
-		e.mu.RLock()
-		onDemote := e.onDemote
-		e.mu.RUnlock()
-
-		if onDemote != nil {
-			log.Info("leader_demoted",
-				append(e.logWithContext(e.ctx),
-					zap.String("reason", "reconnect_verification_failed"),
-				)...,
-			)
-			onDemote()
-		}
+	// Must not hold e.mu here: stepDown (becomeFollower) takes it.
+	if !e.isLeader.Load() {
+		return
 	}
+
+	log := e.getLogger()
+	log.Error("demoting_due_to_reconnect_verification_failure",
+		append(e.logWithContext(e.ctx),
+			zap.Error(err),
+			zap.String("error_type", classifyErrorType(err)),
+		)...,
+	)
+
+	e.stepDown("reconnect_verification_failed")
 }
